@@ -882,6 +882,8 @@ func valueText(v ssa.Value) string {
 		}
 	case *ssa.FieldAddr:
 		return fmt.Sprintf("&%s.#%d", valueText(x.X), x.Field)
+	case *ssa.Field:
+		return fmt.Sprintf("%s.#%d", valueText(x.X), x.Field)
 	}
 	return v.Name()
 }
